@@ -9,6 +9,6 @@ V=/root/scratch/verif_mut_$$
 mkdir -p /root/scratch && rsync -a --exclude .git /repo/ "$M"/ || exit 3
 ( cd "$M" && patch -p1 -s < "$P" ) || { echo "patch does not apply"; rm -rf "$M"; exit 3; }
 rsync -a --exclude .git --exclude replays /verif/ "$V"/ || exit 3
-cd "$V" && VERIF_REPO="$M" PYTHONPATH="$M" timeout 3000 ./check "$ID" --tier "$TIER" "$@" 2>&1 | grep -v "^WARN\|chttp2" | tail -6
+cd "$V" && VERIF_REPO="$M" PYTHONPATH="$M" timeout 3000 ./check "$ID" --tier "$TIER" "$@" 2>&1 | grep -v "^WARN\|chttp2" > "$V/.out"; grep -A1 "^VIOLATION" "$V/.out" | cut -c1-700 | head -12; grep "^C[0-9][0-9] \|^INFRA\|^KNOWN" "$V/.out" | cut -c1-300
 mkdir -p /verif/replays && cp -n "$V"/replays/* /verif/replays/ 2>/dev/null
 rm -rf "$M" "$V"
